@@ -39,7 +39,7 @@ def norm_msg(m):
     return re.sub(r'"[^"]*"', lambda x: x.group().lower(), m).lower()
 
 
-def take_dump(files, target, queries, args=None):
+def take_dump(files, target, queries, args=None, member_queries=None):
     """-> dict(outline=[(name, kind, container, sline, eline)], defs={query: (file, line, name-at-target)}, diags=[(sev, line, msg)])"""
     ws, srv, ev = H.start(files, args=args, nthreads=2)
     try:
@@ -65,10 +65,18 @@ def take_dump(files, target, queries, args=None):
                 defs[key] = (f, rg["start"]["line"], word)
             else:
                 defs[key] = None
+        members = {}
+        for key, (ln, col) in (member_queries or {}).items():
+            r = srv.request("textDocument/completion", srv.pos(uri, ln, col))
+            if r[0] == "resp":
+                items = r[2] if isinstance(r[2], list) else (r[2] or {}).get("items", []) if isinstance(r[2], dict) else []
+                members[key] = tuple(sorted(str(it.get("label", "")).lower() for it in items))
+            else:
+                members[key] = ("ERROR",)
         d, ev2 = srv.diagnostics(uri)
         diags = sorted((x["severity"], x["range"]["start"]["line"], norm_msg(x["message"])) for x in d) if d is not None else None
         fobj = srv.ls.workspace.get(ws.path(target))
-        return {"outline": outline, "defs": defs, "diags": diags, "fixed": getattr(fobj, "fixed", None)}
+        return {"outline": outline, "defs": defs, "diags": diags, "fixed": getattr(fobj, "fixed", None), "members": members}
     finally:
         ws.close()
 
@@ -105,7 +113,12 @@ def run_case(ctx, i, rng):
     if len(ids) > 250:
         ids = rng.sample(ids, 250)
     queries0 = {(ol, oc): (ol, oc) for (_, _, _, ol, oc) in ids}
-    base = take_dump(files, target, queries0)
+    # member lists: completion directly after `%` (the position of the member name), at most 25 per program
+    olines = text.split("\n")
+    mem0 = {k: k for k in queries0 if k[1] > 0 and k[0] < len(olines) and olines[k[0]][:k[1]].rstrip().endswith("%")}
+    if len(mem0) > 25:
+        mem0 = {k: k for k in rng.sample(sorted(mem0), 25)}
+    base = take_dump(files, target, queries0, member_queries=mem0)
     if base["outline"] is None:
         res.inconclusive.append(f"no outline for {target}")
         return res
@@ -135,7 +148,8 @@ def run_case(ctx, i, rng):
         res.kind("class:hostile" if hostile else ("class:join-structural" if joinstruct else "class:conservative"))
         tag = ("hostile:" if hostile else ("join-structural:" if joinstruct else "")) + "+".join(sorted(ops) + [{"\n": "lf", "\r\n": "crlf", "\r": "cr"}[eol]])
         queries = {k: lay.pos[k] for k in queries0 if k in lay.pos}
-        got = take_dump(newfiles, target, queries)
+        memq = {k: lay.pos[k] for k in mem0 if k in lay.pos} if not (hostile or joinstruct) else {}
+        got = take_dump(newfiles, target, queries, member_queries=memq)
         wit = {"target": target, "ops": sorted(ops), "eol": eol, "original": text, "transformed": lay.text("\n"), "files": {k: v for k, v in files.items() if k != target}}
         res.kind("ops:" + tag.split("+")[0] if ops else "ops:eol-only")
         for o in ops:
@@ -189,6 +203,17 @@ def run_case(ctx, i, rng):
                     # the statement containing the query position was split over continuation lines
                     key = "request-side:position-in-statement-split-over-continuation-lines"
                 res.violation(hostile_key(hostile, ops, key), f"{target} [{tag}]: definition at original {ol}:{oc} ('{name}…') was {b}, after T {g} (new position {queries[k]})", wit)
+                bad = True
+                break
+        if bad:
+            continue
+        # member lists after `%` (multisets of labels, case-folded): an entry offered twice or lost shows here
+        for k in memq:
+            res.count("evaluations")
+            if len(stem[memq[k][0]]) > 1 or sum(1 for st_ in stem if st_ == stem[memq[k][0]]) > 1:
+                continue  # request-side context on joined / split lines is a recorded finding
+            if base["members"].get(k) != got["members"].get(k):
+                res.violation(f"members:{opkey(ops, eol)}", f"{target} [{tag}]: completion after % at original {k}: before {base['members'].get(k)}, after T {got['members'].get(k)}", wit)
                 bad = True
                 break
         if bad:
